@@ -23,13 +23,20 @@
                               not a parameter such as '(= 1 1.0)') makes Operator.ground() fail for every call.
      C01_supported_accepted   every domain of the supported fragment G (Spec/Fragment.v, a decidable predicate on the
                               token tree written with the Spec readers only) is accepted by the parser.
+     C01_merge_*              the library keeps the operands of a condition in a SET and skips a compound operand it takes
+                              for one already present, the model appends to a LIST: for every duplicate test that relates
+                              only conditions of the same meaning both denote the same formula (C01_merge_sound), the
+                              structural test of the library's __eq__ is such a test (C01_merge_structural); a test on
+                              the printed text with constants rounded to two decimals is not (C01_merge_printed_refuted,
+                              with the witness (or (sealed ?t) (<= (leak ?t) 0.004)) / ... 0.001)).
    The deviations found while building this (D45 trailing untyped constants dropped, D46/D07 repeated argument or
    wrong arity silently altered, D47 '(f)' read as the declaration) are repaired in /repo; their witnesses are the
    regression examples at the end. *)
 From Coq Require Import List Ascii String Bool Arith PrimFloat Permutation.
 From Verif Require Import Base.Result Base.Str Base.Sexp Base.PyDict Model.Types Model.Domain Model.Exec
   Spec.Pddl Spec.Grammar Spec.Faithful Proofs.C01_Defs Proofs.C01_Typed Proofs.C01_Vocab Proofs.C01_Pre
-  Spec.Fragment Proofs.C01_Eff Proofs.C01_Action Proofs.C01_Domain Proofs.C01_Witness Proofs.C01_Rejects Proofs.C01_Accept.
+  Spec.Fragment Proofs.C01_Eff Proofs.C01_Action Proofs.C01_Domain Proofs.C01_Witness Proofs.C01_Rejects Proofs.C01_Accept
+  Proofs.C01_Merge.
 Import ListNotations.
 Open Scope string_scope.
 Open Scope list_scope.
@@ -178,6 +185,42 @@ Theorem C01_first_use_equality : forall dom a op os eqs neqs x y,
   forall call, exists k, ground_action dom a call = Err k.
 Proof. exact ground_action_unbound_equality. Qed.
 
+(* ---------- operands kept in a set: merging siblings of the same meaning is invisible, merging others is not ------- *)
+(* add_operand_unique same c p = p when an operand of p is [same] as c, else add_operand c p (Proofs/C01_Merge.v);
+   sound_test same = "same a b = true only if a and b denote equivalent formulas (or both nothing)" *)
+Theorem C01_merge_sound : forall same, sound_test same ->
+  forall c p, same_meaning (denote_pre (add_operand_unique same c p)) (denote_pre (add_operand c p)).
+Proof. exact merge_sound. Qed.
+
+(* the library's own test - same connective, operands / equality pairs / inequality pairs equal as sets, literals equal,
+   quantifier over the same variable and type, numeric operands never equal (identity) - is sound *)
+Theorem C01_merge_structural_test_sound : sound_test structural_same.
+Proof. exact structural_same_sound. Qed.
+
+Theorem C01_merge_structural : forall c p,
+  same_meaning (denote_pre (add_operand_unique structural_same c p)) (denote_pre (add_operand c p)).
+Proof. exact merge_structural. Qed.
+
+(* the hypothesis cannot be dropped: a test that takes '(or (sealed ?t) (<= (leak ?t) 0.001))' for the sibling with 0.004
+   (as comparing the texts printed with two decimals does) changes what the parent conjunction means *)
+Theorem C01_merge_unsound_witness : forall same,
+  same (leak_cond c_tight) (leak_cond c_loose) = true ->
+  ~ same_meaning (denote_pre (add_operand_unique same (leak_cond c_tight) (MPre "and" [leak_cond c_loose] [] [])))
+                 (denote_pre (add_operand (leak_cond c_tight) (MPre "and" [leak_cond c_loose] [] []))).
+Proof. exact merge_unsound_witness. Qed.
+
+Theorem C01_merge_printed_refuted :
+  printed_same 2 (leak_cond c_tight) (leak_cond c_loose) = true /\ ~ sound_test (printed_same 2).
+Proof. exact (conj twins_print_alike printed_merge_unsound). Qed.
+
+(* the structural test does merge something (the hypothesis of C01_merge_sound is met by a test that fires) *)
+Theorem C01_merge_example :
+  add_operand_unique structural_same
+    (MNested (MPre "or" [MLit true "q" ["?x"]; MLit false "p" ["?x"]] [("?x", "?y")] []))
+    (MPre "and" [MNested (MPre "or" [MLit false "p" ["?x"]; MLit true "q" ["?x"]] [("?x", "?y")] [])] [] [])
+  = MPre "and" [MNested (MPre "or" [MLit false "p" ["?x"]; MLit true "q" ["?x"]] [("?x", "?y")] [])] [] [].
+Proof. exact merge_structural_fires. Qed.
+
 (* ---------- the supported fragment is accepted ---------- *)
 Theorem C01_supported_accepted : forall num e, G num e = true -> exists m, parse_domain num e = Ok m.
 Proof. exact supported_accepted. Qed.
@@ -233,6 +276,12 @@ Print Assumptions C01_first_use_precondition.
 Print Assumptions C01_first_use_effect.
 Print Assumptions C01_first_use_when_result.
 Print Assumptions C01_first_use_equality.
+Print Assumptions C01_merge_sound.
+Print Assumptions C01_merge_structural_test_sound.
+Print Assumptions C01_merge_structural.
+Print Assumptions C01_merge_unsound_witness.
+Print Assumptions C01_merge_printed_refuted.
+Print Assumptions C01_merge_example.
 Print Assumptions C01_supported_accepted.
 Print Assumptions C01_example_in_G.
 Print Assumptions C01_example.
